@@ -13,9 +13,12 @@ set_option linter.unusedSimpArgs false
 set_option linter.unusedVariables false
 
 theorem l3_full_eq : L3Full .eq := by l3_full
-theorem l3_pre_eq : L3Pre .eq := by l3_pre
+theorem l3_pre_lt_eq : L3PreO .eq .lt := by l3_pre
+theorem l3_pre_eq_eq : L3PreO .eq .eq := by l3_pre
+theorem l3_pre_gt_eq : L3PreO .eq .gt := by l3_pre
 theorem l3_part_eq : L3Part .eq := by l3_part
 
-theorem l3_npm_eq : L3Npm .eq := l3_assemble _ l3_full_eq l3_pre_eq l3_part_eq
+theorem l3_npm_eq : L3Npm .eq :=
+  l3_assemble _ l3_full_eq (l3_pre_assemble _ l3_pre_lt_eq l3_pre_eq_eq l3_pre_gt_eq) l3_part_eq
 
 end DepsDev.Proofs.C03
